@@ -361,6 +361,19 @@ func renderTable(ct *extract.Claim, m crosschaintypes.ExternalClaim) []byte {
 				b.WriteByte(digits[ch>>4])
 				b.WriteByte(digits[ch&15])
 			}
+		case "hexstrlist":
+			const digits = "0123456789abcdef"
+			b.WriteByte('[')
+			for i, s := range v.Interface().([]string) {
+				if i > 0 {
+					b.WriteByte(' ')
+				}
+				for _, ch := range []byte(s) {
+					b.WriteByte(digits[ch>>4])
+					b.WriteByte(digits[ch&15])
+				}
+			}
+			b.WriteByte(']')
 		case "int":
 			b.WriteString(decInt(v.Interface().(sdkmath.Int)))
 		case "bool":
